@@ -13,6 +13,11 @@
 //        -> "ok <uid>=<node>.<sess>+<node>.<sess>,<uid>=,..."   (the static presence world)
 //   phase <pseed> <nch> <nmsg> <fanout> <presfail%> <wfail%> <rfail%> <lat_us> <transient%> <act>
 //        act 1 = Stop concurrently at a random point
+//   longid <mb>
+//        steered admission window: orderedPlanQueue.enqueue hashes the channel id AFTER its last
+//        admission re-check, so a plan with a <mb>-megabyte channel id keeps its sender inside the
+//        admission window for milliseconds; Stop is called in the middle of it.  Timing only decides
+//        whether the window is hit (verdict-neutral).  Must be the last op before fin.
 //   fin  -> Stop (watchdog) ; remaining events
 // events:
 //   N:<msg>:<ch>:<seq>:<mode>:<fromuid>:<snode>:<ssess>:<uid.uid>   message about to be dispatched to these recipients
@@ -48,6 +53,16 @@ func init() {
 }
 
 func genC31(g *Gen) {
+	for k := 0; k < 6; k++ { // steered: Stop while a sender is inside the admission window
+		g.Case()
+		g.Count("case:steered-stop-in-admission-window")
+		g.Op("cfg", "%d %d %d %d %d %d %d %d", g.R.Range(1, 4), 64, 8, 256, 2, 2, g.R.Range(2, 6), g.R.U64()>>1)
+		if g.R.Chance(50) {
+			g.Op("phase", "%d %d %d %d %d %d %d %d %d %d", g.R.U64()>>1, 2, 3, 4, 0, 0, 0, 0, 0, 0)
+		}
+		g.Op("longid", "%d", []int{16, 32, 48}[k%3])
+		g.Op("fin", "")
+	}
 	for c := 0; c < g.N; c++ {
 		g.Case()
 		workers := []int{1, 2, 2, 3, 4}[g.R.Intn(5)]
@@ -422,6 +437,12 @@ func (r *c31Runner) Step(op string) string {
 		}
 		r.runPhase(a)
 		return r.log.take()
+	case "longid":
+		if len(a) != 1 || r.rt == nil || a[0] < 1 || a[0] > 256 {
+			return "bad-op"
+		}
+		r.runLongID(int(a[0]))
+		return r.log.take()
 	case "fin":
 		if len(a) != 0 || r.rt == nil {
 			return "bad-op"
@@ -517,6 +538,29 @@ func (r *c31Runner) runPhase(a []int64) {
 		}()
 	}
 	wg.Wait()
+}
+
+func (r *c31Runner) runLongID(mb int) {
+	r.phase.Store(&c31Phase{seed: 5})
+	id := strings.Repeat("x", mb<<20)
+	send := func(ch, seq uint64) {
+		msg := ch*1000 + seq
+		ev := channelappendcontract.CommittedEnvelope{MessageID: msg, MessageSeq: seq, ChannelID: id, ChannelType: 2}
+		targets := []authority.Target{{LeaderNodeID: 1, RouteRevision: msg}}
+		recips := [][]channelappendcontract.Recipient{{{UID: c31UID(1)}}}
+		r.log.add(fmt.Sprintf("N:%d:%d:%d:1:0:0:0:1", msg, ch, seq))
+		_ = channelappend.VerifDispatchRecipientPlans(context.Background(), onlinedelivery.ModeDurable, ev, targets, recips, r.batch, c31Enq{r})
+	}
+	r.nextCh++
+	ch := uint64(r.nextCh)
+	t0 := time.Now()
+	send(ch, 1) // calibration: how long one admission of such a plan takes
+	took := time.Since(t0)
+	done := make(chan struct{})
+	go func() { defer close(done); send(ch, 2) }()
+	time.Sleep(took / 2)
+	r.stop(false)
+	<-done
 }
 
 // stop logs T0, calls Runtime.Stop and logs T1:<1|0>.  With watchdog the wait is given up only
